@@ -307,6 +307,33 @@ func (r *run) body(ti int) string {
 		r.hook("actor.enter", 0, nil)
 		r.late[ti] = r.db.VerifStateCopyLate()
 		return "pending"
+	case "api":
+		r.hook("actor.enter", 0, nil)
+		out := "ok"
+		func() {
+			defer func() {
+				if rec := recover(); rec != nil {
+					out = "!"
+				}
+			}()
+			switch t.argv[0] {
+			case "swapdbs":
+				a, _ := strconv.Atoi(t.argv[1])
+				b, _ := strconv.Atoi(t.argv[2])
+				r.db.SwapDBs(a, b)
+			case "selectdb":
+				a, _ := strconv.Atoi(t.argv[1])
+				if err := r.db.SelectDB(a); err != nil {
+					out = "-"
+				}
+			case "flush":
+				a, _ := strconv.Atoi(t.argv[1])
+				r.db.Flush(a)
+			default:
+				out = "?"
+			}
+		}()
+		return out
 	case "sweep":
 		r.hook("actor.enter", 0, nil)
 		err, pan := r.db.VerifSweep(t.db)
@@ -820,6 +847,10 @@ func main() {
 			case "TCL":
 				tid, _ := strconv.Atoi(f[1])
 				j.threads = append(j.threads, thread{id: tid, kind: "copylate"})
+			case "TA":
+				// a call of the embedded API that does not go through handleCommand (and so takes no command lock)
+				tid, _ := strconv.Atoi(f[1])
+				j.threads = append(j.threads, thread{id: tid, kind: "api", argv: append([]string(nil), f[2:]...)})
 			case "TW":
 				tid, _ := strconv.Atoi(f[1])
 				dbi, _ := strconv.Atoi(f[2])
